@@ -21,6 +21,8 @@ type Violation struct {
 	Sig    string `json:"sig"` // stable class of the failure, phrased in harness-level facts
 	Detail string `json:"detail"`
 	Step   int64  `json:"step"`
+	// AtEnd: reported by an end-of-run oracle (these presume quiescence and are void when the run hit its step cap)
+	AtEnd bool `json:"at_end,omitempty"`
 }
 
 // Run is the per-execution context handed to scenario code.
@@ -53,7 +55,7 @@ func (r *Run) Fail(rule, sig, format string, a ...any) {
 	if r.Sim != nil {
 		st = r.Sim.Step()
 	}
-	v := Violation{Prop: r.Prop, Rule: rule, Sig: sig, Detail: fmt.Sprintf(format, a...), Step: st}
+	v := Violation{Prop: r.Prop, Rule: rule, Sig: sig, Detail: fmt.Sprintf(format, a...), Step: st, AtEnd: simrt.Dying()}
 	r.Viol = append(r.Viol, v)
 	r.Logf("VIOLATION %s [%s] %s", rule, sig, v.Detail)
 }
